@@ -432,7 +432,13 @@ func verifHarness_C08_framing_metadata_not_guessed() {
 	client := false
 	var w []byte
 	name := ""
-	switch verifChoose("form", 6) {
+	switch verifChoose("form", 8) {
+	case 6: // a chunk-size line ended by a bare LF
+		name = "bare-lf-ends-chunk-size-line"
+		w = []byte("POST / HTTP/1.1\r\nTransfer-Encoding: chunked\r\n\r\n3\nabc\r\n0\r\n\r\n")
+	case 7: // a bare LF inside a chunk extension
+		name = "bare-lf-in-chunk-extension"
+		w = []byte("POST / HTTP/1.1\r\nTransfer-Encoding: chunked\r\n\r\n3;x\ny\r\nabc\r\n0\r\n\r\n")
 	case 0: // "Content-Length <junk>: 3"
 		name = "junk-between-name-and-colon/content-length"
 		w = []byte("POST / HTTP/1.1\r\nContent-Length ")
